@@ -79,6 +79,11 @@ def _generate_fun0(m12, m23, m0, m1, m2, m3):
 
 def generate_p(m12, m23, m0, m1, m2, m3):
     """generate monmentum by dalitz variable m12, m23"""
+    # python numbers would become float32 in tensorflow.sqrt and tf.stack
+    m12, m23 = [
+        i if isinstance(i, tf.Tensor) else tf.convert_to_tensor(i, tf.float64)
+        for i in (m12, m23)
+    ]
     E1, E2, E3, pa, pb, pc = _generate_fun0(m12, m23, m0, m1, m2, m3)
     zero = tf.zeros_like(E1)
     p1 = tf.stack([E1, pa, zero, zero], axis=-1)
